@@ -304,6 +304,35 @@ class FnSplicer:
             self.ed.insert(rf.ct(cbrace).end, ' }', 1)
             self.desugared.append({'rule': 'R5', 'loop': n, 'before': before, 'after': new_head + ' .. } }'})
             return
+        if d == 'R8':
+            # for PAT in PLACE.iter_mut() { B } (or `for PAT in &mut PLACE`)  =>  { let mut __i = 0; while __i < PLACE.len() { let PAT = &mut PLACE[__i]; __i += 1; B } }
+            # (slice::IterMut visits every index once, in order; PLACE must be a side-effect-free path: identifiers and dots only)
+            kw = rf.ct(kwci)
+            if kw.text != 'for':
+                raise ExtractError(f'{self._where()}: R8 needs a for loop')
+            k = kwci + 1
+            while k < obrace and rf.ct(k).text != 'in':
+                k = rf.match(k) + 1 if rf.ct(k).text in ('(', '[') else k + 1
+            if k >= obrace:
+                raise ExtractError(f'{self._where()}: R8: no `in`')
+            PAT = rf.spaced(kwci + 1, k)
+            tail = [rf.ct(x).text for x in range(obrace - 4, obrace)]
+            if tail == ['.', 'iter_mut', '(', ')']:
+                place_toks = [rf.ct(x) for x in range(k + 1, obrace - 4)]
+            elif rf.ct(k + 1).text == '&' and rf.ct(k + 2).text == 'mut':
+                # `for PAT in &mut PLACE` is `PLACE.iter_mut()` for Vec / slices (IntoIterator for &mut Vec<T>)
+                place_toks = [rf.ct(x) for x in range(k + 3, obrace)]
+            else:
+                raise ExtractError(f'{self._where()}: R8: the loop does not iterate over `<place>.iter_mut()` or `&mut <place>`')
+            if not place_toks or any(not (t.kind == 'ident' or t.text == '.') for t in place_toks):
+                raise ExtractError(f'{self._where()}: R8: `{rf.spaced(k + 1, obrace)}` does not iterate over a plain path')
+            PLACE = ''.join(t.text for t in place_toks)
+            before = rf.spaced(kwci, obrace + 1)
+            new_head = f'{{ let mut __i: usize = 0; while __i < {PLACE}.len()\n{clauses}{{ let {PAT} = &mut {PLACE}[__i]; __i += 1;'
+            self.ed.replace(kw.start, rf.ct(obrace).end, new_head)
+            self.ed.insert(rf.ct(cbrace).end, ' }', 1)
+            self.desugared.append({'rule': 'R8', 'loop': n, 'before': before, 'after': new_head + ' .. } }'})
+            return
         if d:
             raise ExtractError(f'unknown desugaring {d}')
         if ls.get('iter_name'):
